@@ -1,3 +1,4 @@
+import Svgbob.Proofs.Provenance
 import Svgbob.Proofs.SourceConstants
 import Svgbob.Proofs.RectSound
 import Svgbob.Proofs.TableLocal
@@ -510,5 +511,19 @@ theorem signal_levels_are_the_sources :
     Gen.overlapComparison = "signal >= required" ∧
     Gen.overlapLevels = [("line_overlap", "Medium"), ("line_strongly_overlap", "Strong"),
       ("line_weakly_overlap", "Weak")] := signal_levels_match_source
+
+/-- **every stroke of every cell lives on in ONE merged fragment of its scope**: for a span with
+pairwise different cells whose cell fragments are proper grid lines (as those of the alphabet are:
+`alphabet_fragments_are_proper_lines`), each fragment of each cell is carried by one fragment of the
+merged list — that fragment's span holds the cell and it strokes every point the cell's fragment
+stroked (the set statement `merge_keeps_the_stroked_points` says the union is kept; this says by whom) -/
+theorem every_cell_stroke_lives_on_in_one_fragment (len : List Char → Nat) (s : Span)
+    (hnd : (s.map (·.1)).Nodup)
+    (hok : ∀ cc ∈ s, ∀ f ∈ cellFragments len s cc.1 cc.2, (f.absPos cc.1).StrokeOk)
+    (cc : Cell × Char) (hcc : cc ∈ s) (f : Frag) (hf : f ∈ cellFragments len s cc.1 cc.2) :
+    ∃ m ∈ G.mergeRec (FragSpan.merge len) ((absFragmentSpans (fragmentBuffer len s s)).length + 1)
+        (absFragmentSpans (fragmentBuffer len s s)),
+      cc ∈ m.span ∧ ∀ P : RPt, 0 < P.q → (f.absPos cc.1).strokes P → m.frag.strokes P :=
+  cell_fragment_lives_on len s hnd hok cc hcc f hf
 
 end Svgbob.C03
